@@ -244,6 +244,9 @@ macro_rules! op {
     };
 }
 
+#[path = "../shared/c14_deep4.rs"]
+mod c14_deep4;
+
 // ---------------------------------------------------------------------------------------------
 // fixtures
 
@@ -2231,6 +2234,9 @@ fn generate(rng: &mut Rng, tier: &str, w: &mut CaseWriter) {
     }
 
     gen_deepen(rng, thorough, w);
+    c14_deep4::gen_mta(rng, thorough, w);
+    c14_deep4::gen_ixc(rng, thorough, w);
+    c14_deep4::gen_async(rng, thorough, w);
 
     // --- L3: failure at every inner call, for every writer of the quantifier
     let rounds = if thorough { 10 } else { 2 };
@@ -2526,6 +2532,9 @@ fn run(c: &Case) -> Obs {
         "lwfmt" => run_lwfmt(c),
         "bg" => run_bg(c),
         "mt" => run_mtl(c),
+        "mta" => c14_deep4::run_mta(c),
+        "ixc" => c14_deep4::run_ixc(c),
+        "awa" | "afq" => c14_deep4::run_async(c),
         "fob" => run_fob(c),
         "cram" => run_cram(c),
         "fsfull" => run_fsfull(c),
